@@ -244,13 +244,28 @@ func NewRunner(sch *Schema, timeout time.Duration) (*Runner, error) {
 
 // NewRunnerId: NewRunner with a chosen machine id (several machines, one debugger).
 func NewRunnerId(sch *Schema, timeout time.Duration, id string) (*Runner, error) {
-	r := &Runner{Sch: sch, counts: map[string]int{}, extraBind: map[int][]string{}, Timeout: timeout,
-		ctxs: map[int]context.Context{}, cancels: map[int]context.CancelFunc{}, uctx: map[int]context.Context{}}
+	return NewRunnerSchema(sch, timeout, id, nil)
+}
+
+// AmSchema builds the am.Schema value of a generated schema.
+func AmSchema(sch *Schema) am.Schema {
+	r := &Runner{Sch: sch}
 	schema := am.Schema{}
 	for i, d := range sch.Defs {
 		schema[sch.Names[i]] = am.State{Auto: d.Auto, Multi: d.Multi,
 			Require: r.namesNil(d.Require), Add: r.namesNil(d.Add),
 			Remove: r.namesNil(d.Remove), After: r.namesNil(d.After)}
+	}
+	return schema
+}
+
+// NewRunnerSchema: a runner over a given am.Schema value (nil: a fresh one). Several machines made
+// from one Schema value is the library's idiom (package-level schema variables).
+func NewRunnerSchema(sch *Schema, timeout time.Duration, id string, schema am.Schema) (*Runner, error) {
+	r := &Runner{Sch: sch, counts: map[string]int{}, extraBind: map[int][]string{}, Timeout: timeout,
+		ctxs: map[int]context.Context{}, cancels: map[int]context.CancelFunc{}, uctx: map[int]context.Context{}}
+	if schema == nil {
+		schema = AmSchema(sch)
 	}
 	ctx, cancel := context.WithCancel(context.Background())
 	r.cancel = cancel
